@@ -394,6 +394,45 @@ CLAIMS["C06"]["technique"] += "; interprocedural registration typestate"
 CLAIMS["C13"]["technique"] += "; relational abstract interpretation (build-heap extent)"
 CLAIMS["C04"]["technique"] += "; relational abstract interpretation with a ghost table size"
 
+ROUND6 = {
+ "C01": "The CRC's running state is the value the previous step stored (no stale cached copy).",
+ "C03": "Every message-schedule word of the SSE2 transform is stored before the round that reads it (walk of the round loop over known indices).",
+ "C04": "The descriptor table and the poll array point at each other: a new table record starts empty in every field, an added entry and its record are linked "
+        "before the entry is counted, a vacated entry is unlinked, the moved one re-linked, then the count goes down; with nfds <= fds_alloc assumed at entry "
+        "the capacity assertion is implied by the code, every entry written lies below the capacity, and the capacity recorded is the element count realloc granted; "
+        "the moved entry travels whole; the double-to-timeval conversion has no narrowing intermediate.",
+ "C05": "The 32 priority queues start as empty tail queues of their own (initial state read from the initialiser as evaluated by the compiler).",
+ "C06": "The errno values retried are exactly the would-block set, decided per errno value (any spelling: if-chain, switch, negation); network_connect tests the address "
+        "it uses, completes with -1 only on the terminating NULL, routes SO_ERROR != 0 to the next address and == 0 to the completion, arms the timeout exactly when "
+        "the caller gave one, never releases a request whose own descriptor may still be open, and keeps only those of its caller's pointers its interface lets it keep; "
+        "cancel routines cancel the (descriptor, direction) pairs their unit registers; the request units test, release and report their allocations.",
+ "C07": "poke never returns with a non-empty queue and no write in flight without launching one; the reservation mark follows reserve / consume / failed reserve.",
+ "C08": "Every headers[i] is below the count beside that array; nothing released is read again through a field path or a queue macro; the cancel routine releases every "
+        "member (nested ones and the socket included) that the reference tree releases; every scalar or pointer local is assigned before it is read.",
+ "C09": "Each body framing is chosen under its own condition; findeol answers a position only where CR LF was found; 'too big' only when more bytes are known to follow "
+        "than the limit leaves; header name/value/OWS split and chunk framing amounts.",
+ "C10": "A status variable returned at the end of a cleanup ladder cannot hold 0 on any path from a failed acquisition.",
+ "C12": "The recorded capacity describes the buffer (0 only beside buf = NULL, otherwise the byte count realloc has just granted beside the buffer it returned); getmin's two "
+        "answers and delete's trim are each under their own condition; the queue's record moves stay within the live records.",
+ "C14": "Integer bookkeeping at file scope computed before an acquisition is rolled back when the acquisition's failure reaches a failure return; after a successful realloc "
+        "the result replaces the old pointer on every path; a returned status variable cannot hold 0 after a failure; destructors' member releases are part of the double-release analysis.",
+ "C15": "For p = malloc(n * sizeof *p) every p[k] has k < n, with the count-allocate-copy idiom over a caller's NULL-terminated list decided through a ghost terminator index; "
+        "allocations of the anchored files are tested before use and reported.",
+ "C16": "The other edge of each overflow test rejects the string (its first effect is the error state).",
+ "C17": "skip_ws skips exactly HT LF CR SP (decided per byte value); the escape switch decodes exactly the eight simple escapes; the address decoder accepts exactly the length "
+        "the encoder produces; an address is a Unix path exactly when it starts with '/', a literal is the address exactly when inet_pton answers 1; every member of an "
+        "address object is stored before it is handed on.",
+}
+for _k, _v in ROUND6.items():
+    CLAIMS[_k]["text"] += " " + _v
+for _k in CLAIMS:
+    CLAIMS[_k]["text"] += (" On the property's anchored files, differentially against the pinned tree: the sign class of every constant returned, every parameter used, every member "
+                           "a constructor stored or a destructor released; and definite assignment of scalar and pointer locals.")
+CLAIMS["C06"]["technique"] += "; per-value decision of branch conditions over the CFG"
+CLAIMS["C15"]["technique"] += "; relational abstract interpretation with ghost allocation counts and a ghost list-terminator index"
+CLAIMS["C14"]["technique"] += "; constant propagation of returned status variables; file-scope bookkeeping dataflow"
+CLAIMS["C05"]["technique"] += "; static-initialiser evaluation (address constants)"
+
 NOT_APPLICABLE = {
 }
 
